@@ -58,10 +58,15 @@ pub fn fresh_tokens(tokenizer: &vibrato::Tokenizer, text: &str) -> Option<Vec<St
 }
 
 pub fn observe(dict: &vibrato::Dictionary, worker: &mut vibrato::tokenizer::worker::Worker, text: &str, rng: &mut Rng, counting: bool) -> SentObs {
-    let cinfos: Vec<(u32, u32, bool, bool, u16)> = text.chars().map(|c| dict.verif_char_info(c)).collect();
-    let cinfos_t = clist(&cinfos, |c| format!("({},{},{},{},{})", c.0, c.1, cbool(c.2), cbool(c.3), c.4));
     // operation pattern on the reused worker (the model always tokenizes once on a fresh worker)
     let pattern = rng.below(8);
+    observe_pattern(dict, worker, text, pattern, counting)
+}
+
+/// `pattern`: 0 abandoned sentence first, 1 empty sentence first, 2/3 repeated tokenize, otherwise plain.
+pub fn observe_pattern(dict: &vibrato::Dictionary, worker: &mut vibrato::tokenizer::worker::Worker, text: &str, pattern: u64, counting: bool) -> SentObs {
+    let cinfos: Vec<(u32, u32, bool, bool, u16)> = text.chars().map(|c| dict.verif_char_info(c)).collect();
+    let cinfos_t = clist(&cinfos, |c| format!("({},{},{},{},{})", c.0, c.1, cbool(c.2), cbool(c.3), c.4));
     let mut pre = 0usize;
     let res = std::panic::catch_unwind(std::panic::AssertUnwindSafe(|| {
         if pattern == 0 {
@@ -450,7 +455,8 @@ pub fn run(prop: &str, seed: u64, n: usize, outdir: &str, _corpus: Option<&str>)
             // second stream: one random edit of ONE of the definition files of this dictionary (text level)
             let files = [gd.char_def(), GenDict::rows_csv(&gd.unk), gd.matrix_def(), GenDict::rows_csv(&gd.sys), gd.user.as_ref().map_or(String::new(), |u| GenDict::rows_csv(u))];
             let which = rng.below(5) as usize;
-            let edited = corrupt_text(&mut rng, &files[which]);
+            // 1 case in 4 keeps the files as they are (the text-level model on unedited files)
+            let edited = if rng.chance(1, 4) { files[which].clone() } else { corrupt_text(&mut rng, &files[which]) };
             let mut fs = files.clone();
             fs[which] = edited.clone();
             let has_user = gd.user.is_some() || which == 4;
@@ -460,17 +466,35 @@ pub fn run(prop: &str, seed: u64, n: usize, outdir: &str, _corpus: Option<&str>)
                 if has_user { d.reset_user_lexicon_from_reader(Some(us.as_bytes())) } else { Ok(d) }
             });
             let code = match &built { Outcome::Ok(_) => 0, Outcome::Err => 1, Outcome::Panic => 2 };
-            let mut souts: Vec<(u8, bool)> = vec![];
+            // full observation of the dictionary built from the edited texts: connection costs, option
+            // outcome, every sentence with tokens / lattice / character infos (fresh worker each)
+            let mut conn_t = "[]".to_string();
+            let mut space_res = 0u8;
+            let mut sobs: Vec<SentObs> = vec![];
+            let mut uncovered: Vec<bool> = vec![];
             if let Outcome::Ok(d) = built {
+                conn_t = coq_conn(&d);
                 let unk_cats: std::collections::BTreeSet<u32> = d.verif_unk_entries().iter().map(|e| e.0 as u32).collect();
-                let uncovered: Vec<bool> = sentences.iter().map(|s| s.chars().any(|ch| !unk_cats.contains(&d.verif_char_info(ch).1))).collect();
-                let t = vibrato::Tokenizer::new(d);
-                for (s, unc) in sentences.iter().zip(uncovered) {
-                    let r = std::panic::catch_unwind(std::panic::AssertUnwindSafe(|| { let mut w = t.new_worker(); w.reset_sentence(s); w.tokenize(); w.num_tokens() }));
-                    souts.push((if r.is_ok() { 0 } else { 2 }, unc));
+                uncovered = sentences.iter().map(|s| s.chars().any(|ch| !unk_cats.contains(&d.verif_char_info(ch).1))).collect();
+                let t = vibrato::Tokenizer::new(d).max_grouping_len(mgl);
+                match t.ignore_space(ignore_space) {
+                    Ok(t) => {
+                        for s in sentences.iter() {
+                            let mut w = t.new_worker();
+                            sobs.push(observe_pattern(t.dictionary(), &mut w, s, 7, false));
+                        }
+                    }
+                    Err(_) => { space_res = 1; }
                 }
             }
-            let tterm = format!("(C10Text {} {} {} {})", sub, which, code, clist(&souts, |(o, u)| format!("({}, {})", o, cbool(*u))));
+            let souts: Vec<(u8, bool)> = sobs.iter().zip(uncovered.iter()).map(|(o, u)| (o.outcome, *u)).collect();
+            let tterm = format!(
+                "(C10Text {} {} {} {} {} {} {} {} {} {} {} {} {} {})",
+                sub, which, cstr(&fs[0]), cstr(&fs[1]), cstr(&fs[2]), cstr(&fs[3]),
+                if has_user { format!("(Some {})", cstr(&fs[4])) } else { "None".to_string() },
+                code, conn_t, cbool(ignore_space), space_res, mgl,
+                clist(&sobs, sentobs_term), clist(&souts, |(o, u)| format!("({}, {})", o, cbool(*u)))
+            );
             let thuman = format!("edited file #{} (0 char.def, 1 unk.def, 2 matrix.def, 3 lex.csv, 4 user.csv) = {} ; other files: {} sentences={:?}", which, json_str(&edited), out.human, sentences);
             *dist.entry(format!("text_edit_outcome_{}", code)).or_default() += 1;
             sh.push_h(format!("seed:{}:text", sub), tterm, thuman);
